@@ -463,8 +463,59 @@ fn drive_child(mut child: std::process::Child, from: u64, to: u64) -> ChildRun {
     ChildRun { outcomes, next }
 }
 
+/// Largest bracket nesting depth of a text (strings are not parsed: an over-estimate is fine).
+fn bracket_depth(text: &str) -> usize {
+    let mut d = 0usize;
+    let mut max = 0usize;
+    for b in text.bytes() {
+        match b {
+            b'[' | b'{' | b'(' => {
+                d += 1;
+                max = max.max(d);
+            }
+            b']' | b'}' | b')' => d = d.saturating_sub(1),
+            _ => {}
+        }
+    }
+    max
+}
+
+/// Could this trial have built a value nested 200+ levels deep? True for a deep input, a
+/// deeply bracketed program, or an explicit `range(N)` with N >= 200 (the canonical
+/// `reduce range(400) as $i (null; [.])`). Used to scope the nesting-depth known finding:
+/// the same panic on shallow data is NOT the known finding.
+fn deep_data(program: &str, input: &str) -> bool {
+    if bracket_depth(input) >= 200 || bracket_depth(program) >= 200 {
+        return true;
+    }
+    let mut rest = program;
+    while let Some(p) = rest.find("range(") {
+        rest = &rest[p + 6..];
+        let digits: String = rest.chars().take_while(char::is_ascii_digit).collect();
+        if digits.parse::<u64>().map_or(false, |n| n >= 200) {
+            return true;
+        }
+    }
+    false
+}
+
+/// Classify an outcome of a known (program, input): adds what a known-finding signature
+/// needs to be narrow (the un-normalised panic message, whether deep data was in play).
+fn classify(o: &Outcome, program: &str, input: &str) -> Option<Failure> {
+    let mut f = classify_raw(o)?;
+    if f.class.starts_with("panic:") {
+        if let (Value::Object(d), Outcome::Ended { msg, .. }) = (&mut f.detail, o) {
+            let head = msg.split("_@_").next().unwrap_or("").replace('_', " ");
+            let head = head.split('`').next().unwrap_or("").trim().to_string();
+            d.insert("message".into(), json!(head));
+            d.insert("deep_data".into(), json!(deep_data(program, input)));
+        }
+    }
+    Some(f)
+}
+
 /// Classify an outcome. `None` = fine (or legitimately discarded).
-fn classify(o: &Outcome) -> Option<Failure> {
+fn classify_raw(o: &Outcome) -> Option<Failure> {
     match o {
         Outcome::Ended { class, msg, .. } if class == "PANIC" => {
             // The class is the message up to the first quoted excerpt of the
@@ -649,7 +700,7 @@ fn run_case_cli(case: &Case) -> (Outcome, Option<Failure>) {
             last_refusal: Some(Refusal { size, live: 0, peak: 0, class_a, site: String::new() }),
             stderr_tail: tail,
         };
-        let f = classify(&o);
+        let f = classify(&o, &case.program, &case.input);
         return (o, f);
     }
     if let Some(p) = err.find("panicked at ") {
@@ -657,11 +708,11 @@ fn run_case_cli(case: &Case) -> (Outcome, Option<Failure>) {
         let rest = &err[p..];
         let msg = rest.lines().nth(1).unwrap_or("").trim().to_string();
         let o = Outcome::Ended { class: "PANIC".into(), refusals: 0, class_a: 0, peak: 0, msg: esc(&msg) };
-        let f = classify(&o);
+        let f = classify(&o, &case.program, &case.input);
         return (o, f);
     }
     let o = Outcome::Died { signal, code, last_refusal: None, stderr_tail: tail };
-    let f = classify(&o);
+    let f = classify(&o, &case.program, &case.input);
     (o, f)
 }
 
@@ -705,7 +756,7 @@ fn run_case_site(case: &Case, site: bool) -> (Outcome, Option<Failure>) {
     let _ = std::fs::remove_file(&pf);
     let _ = std::fs::remove_file(&inf);
     let o = run.outcomes.into_iter().next().map_or(Outcome::TimedOut, |(_, o)| o);
-    let f = classify(&o);
+    let f = classify(&o, &case.program, &case.input);
     (o, f)
 }
 
@@ -971,7 +1022,7 @@ fn run_parent(seed: u64, tier: Tier, runs: u64, workers: usize, want_log_hash: b
                                    "input": t.input.chars().take(120).collect::<String>(), "outcome": class_name}),
                         ));
                     }
-                    if let Some(f) = classify(&o) {
+                    if let Some(f) = classify(&o, &t.program, &t.input) {
                         if let Some(k) = matches_known(&f, &known) {
                             *st.known_hits.entry(known[k].id.clone()).or_default() += 1;
                         } else {
